@@ -60,6 +60,15 @@ def main():
             for b in range(256):
                 traces.append(trace(tid, [first[c], b]))
                 tid += 1
+    elif a.mode == "long":
+        # lengths around every multiple of 256 up to 1024 (a length field of the protocol is one byte wide)
+        rng = random.Random(a.seed)
+        tid = a.first_id
+        for n in (255, 256, 257, 300, 511, 512, 513, 767, 768, 1023, 1024, 1025):
+            for style in ("rand", "zeros_then_one"):
+                msg = [rng.randrange(256) for _ in range(n)] if style == "rand" else [0] * (n - 1) + [1 + rng.randrange(255)]
+                traces.append(trace(tid, msg, as_bytes=(n % 2 == 0)))
+                tid += 1
     else:
         rng = random.Random(a.seed)
         for i in range(a.n):
